@@ -7,6 +7,7 @@ package main
 
 import (
 	"fmt"
+	"go/constant"
 	"go/token"
 	"go/types"
 	"sort"
@@ -271,6 +272,11 @@ func (w *WE) rootsRec(v ssa.Value, seen map[ssa.Value]bool) []Root {
 	case *ssa.Index:
 		return w.rootsRec(x.X, seen)
 	case *ssa.Slice:
+		if zeroCapSlice(x) {
+			// s[:0:0]: no element is reachable through it and an append to it
+			// allocates (the spelled-out slices.Clone)
+			return []Root{{Kind: RLocal}}
+		}
 		return w.rootsRec(x.X, seen)
 	case *ssa.ChangeType:
 		return w.rootsRec(x.X, seen)
@@ -853,4 +859,15 @@ func (w *WE) fieldsWritten(fn *ssa.Function, idx int, out map[string]bool, busy 
 		}
 	}
 	return precise
+}
+
+// zeroCapSlice: a three-index slice expression whose capacity bound is the
+// constant 0.
+func zeroCapSlice(x *ssa.Slice) bool {
+	c, ok := x.Max.(*ssa.Const)
+	if !ok || c.Value == nil {
+		return false
+	}
+	v, exact := constant.Int64Val(constant.ToInt(c.Value))
+	return exact && v == 0
 }
